@@ -202,9 +202,31 @@ def _frames_in_repo(tb) -> bool:
     return False
 
 
+def install_seams(seed):
+    """Randomness behind a seam: BNode ids (term.uuid4), the N3 sink's per-parse uuid, uuid.uuid4 and the
+    global `random` module are all driven by the run seed, so a replay in a fresh interpreter sees what the batch saw."""
+    import random
+    import sys as _sys
+    import uuid as _uuid
+
+    r = random.Random(seed ^ 0x5EED5EED)
+    real_uuid = _uuid.UUID
+
+    def fake_uuid4():
+        return real_uuid(int=r.getrandbits(128), version=4)
+
+    _uuid.uuid4 = fake_uuid4
+    for modname in ("rdflib.term", "rdflib.plugins.parsers.notation3"):
+        mod = _sys.modules.get(modname)
+        if mod is not None and hasattr(mod, "uuid4"):
+            mod.uuid4 = fake_uuid4
+    random.seed(seed)
+
+
 def execute_here(prop, trace, known=None, keep_log=False):
     """Run execute(trace) and classify.  Returns a JSON-able result dict."""
     ctx = Ctx(prop, known, keep_log=keep_log)
+    install_seams(int(trace.get("run_seed", 0)))
     res = {"status": "ok"}
     budget_all = trace.get("config", {}).get("budget_all")
     try:
